@@ -507,33 +507,48 @@ theorem goMulF64_of_nonneg {a : Int} (ha : 0 ≤ a) (n d : Nat)
     ⟨by omega, h⟩
   simp only [hc, and_self, if_true]
 
-/-- the float → int64 conversions of the schedule of `f` stay inside int64. -/
+/-- every fixed-width operation of the schedule of `f` stays in range: the float → int64
+    conversions, the `int64` addition `startingFeeRate + feeRateDelta`, and the `uint32`
+    addition `width + 1`. -/
 def NoOverflow (f : FeeFn) : Prop :=
-  0 ≤ f.delta ∧ (mulF64Mag f.delta.natAbs f.width 1000 : Int) < 2 ^ 63
+  0 ≤ f.delta ∧ (mulF64Mag f.delta.natAbs f.width 1000 : Int) < 2 ^ 63 ∧
+  f.width + 1 < u32Mod ∧ -9223372036854775808 ≤ f.start ∧
+  f.start + (mulF64Mag f.delta.natAbs f.width 1000 : Int) < 9223372036854775808
 
 /-- with Go's binary64 arithmetic the schedule is non-negative and monotone. -/
 theorem sound_of_noOverflow {f : FeeFn} (hle : f.start ≤ f.end_) (hno : NoOverflow f) :
     Sound goMulF64 f := by
-  obtain ⟨hd, hov⟩ := hno
-  have hbound : ∀ p, p < f.width → (mulF64Mag f.delta.natAbs p 1000 : Int) < 2 ^ 63 := by
+  obtain ⟨hd, hov, hw, hlo, hhi⟩ := hno
+  have hmono : ∀ p, p < f.width →
+      (mulF64Mag f.delta.natAbs p 1000 : Int) ≤ (mulF64Mag f.delta.natAbs f.width 1000 : Int) := by
     intro p hp
     have := mulF64Mag_mono f.delta.natAbs 1000 (by norm_num) (Nat.le_of_lt hp)
-    have : (mulF64Mag f.delta.natAbs p 1000 : Int) ≤ (mulF64Mag f.delta.natAbs f.width 1000 : Int) := by
-      exact_mod_cast this
+    exact_mod_cast this
+  have hbound : ∀ p, p < f.width → (mulF64Mag f.delta.natAbs p 1000 : Int) < 2 ^ 63 := by
+    intro p hp
+    have := hmono p hp
     omega
-  refine ⟨hle, ?_, ?_⟩
+  refine ⟨hle, hw, ?_, ?_, ?_⟩
   · intro p hp
     rw [goMulF64_of_nonneg hd p 1000 (hbound p hp)]
     exact Int.natCast_nonneg _
   · intro p q hpq hq
     rw [goMulF64_of_nonneg hd p 1000 (hbound p (by omega)), goMulF64_of_nonneg hd q 1000 (hbound q hq)]
     exact_mod_cast mulF64Mag_mono f.delta.natAbs 1000 (by norm_num) hpq
+  · intro p hp
+    rw [goMulF64_of_nonneg hd p 1000 (hbound p hp)]
+    have h1 := hmono p hp
+    have h0 : (0 : Int) ≤ (mulF64Mag f.delta.natAbs p 1000 : Int) := Int.natCast_nonneg _
+    simp only [InI64]
+    omega
 
 /-- a sufficient condition for `NoOverflow`: ceiling and start at most `2^27` sat/kw apart
-    (134 M sat/kw ≈ 537 k sat/vB, far above any configurable fee rate) and a uint32 conf target. -/
+    (134 M sat/kw ≈ 537 k sat/vB, far above any configurable fee rate), the ceiling at most `2^61`,
+    the start an `int64`, and a uint32 conf target. -/
 theorem noOverflow_of_small {maxFeeRate relay : Int} {ct : Nat} {so est : Option Int} {f : FeeFn}
     (hnew : newLinear goMulF64 maxFeeRate ct so est relay = .ok f)
-    (hle : f.start ≤ f.end_) (hsmall : f.end_ - f.start ≤ 2 ^ 27) (hct : ct < 2 ^ 32) :
+    (hle : f.start ≤ f.end_) (hsmall : f.end_ - f.start ≤ 2 ^ 27) (hct : ct < 2 ^ 32)
+    (hlo : -9223372036854775808 ≤ f.start) (hhi : f.end_ ≤ 2 ^ 61) :
     NoOverflow f := by
   obtain ⟨hend, _, _, hcase⟩ := newLinear_spec hnew
   rcases hcase with ⟨_, _, hw⟩ | ⟨h2, hw, hdelta, _⟩
@@ -542,12 +557,19 @@ theorem noOverflow_of_small {maxFeeRate relay : Int} {ct : Nat} {so est : Option
     have hct1 : ct ≤ 1 := by omega
     simp only [hct1, if_true, Except.ok.injEq] at hnew
     subst hnew
-    refine ⟨Int.le_refl _, ?_⟩
-    show (mulF64Mag (0 : Int).natAbs 0 1000 : Int) < 2 ^ 63
-    decide
+    have e : (mulF64Mag (0 : Int).natAbs 0 1000 : Int) = 0 := by decide
+    refine ⟨Int.le_refl _, ?_, by simp only [u32Mod]; omega, hlo, ?_⟩
+    · show (mulF64Mag (0 : Int).natAbs 0 1000 : Int) < 2 ^ 63
+      rw [e]; norm_num
+    · show maxFeeRate + (mulF64Mag (0 : Int).natAbs 0 1000 : Int) < 9223372036854775808
+      rw [e]
+      have : maxFeeRate ≤ 2 ^ 61 := hhi
+      omega
   · set a : Int := maxFeeRate - f.start with ha
     have ha0 : 0 ≤ a := by rw [ha, ← hend]; omega
     have ha1 : a.natAbs ≤ 2 ^ 27 := by rw [ha, ← hend]; omega
+    have haw : wrap64 a = a := wrap64_of_isI64 (by simp only [InI64]; omega)
+    rw [haw] at hdelta
     have hwpos : 0 < ct - 1 := by omega
     have hb1 := mulF64Mag_le_pow a.natAbs 1000 (ct - 1) 27 10 0 hwpos ha1 (by norm_num) (by omega) (by omega)
     have hb1' : (mulF64Mag a.natAbs 1000 (ct - 1) : Int) ≤ 2 ^ 38 := by exact_mod_cast hb1
@@ -558,7 +580,11 @@ theorem noOverflow_of_small {maxFeeRate relay : Int} {ct : Nat} {so est : Option
     have hb2 := mulF64Mag_le_pow f.delta.natAbs f.width 1000 38 32 9 (by norm_num) hdn
       (by rw [hw]; omega) (by norm_num) (by omega)
     have hb2' : (mulF64Mag f.delta.natAbs f.width 1000 : Int) ≤ 2 ^ 62 := by exact_mod_cast hb2
-    exact ⟨hd0, by omega⟩
+    have hs61 : f.start ≤ 2 ^ 61 := by omega
+    refine ⟨hd0, by omega, by rw [hw]; simp only [u32Mod]; omega, hlo, ?_⟩
+    have e62 : (2 : Int) ^ 62 = 4611686018427387904 := by norm_num
+    have e61 : (2 : Int) ^ 61 = 2305843009213693952 := by norm_num
+    omega
 
 /-! ### concrete evaluations -/
 
